@@ -40,10 +40,10 @@ class Prettify(Harness):
         rvals = {f: MapV() for f in rf}
         rvals['prefixes'] = plist
         rvals['datepatterns'] = Arr([])
-        reg = Struct('Registry', [rvals[f] for f in rf])
+        reg = make_struct(ex, 'Registry', {'prefixes': plist})
         cf = ex.prog.src.structs['Context']
         cvals = {'registry': reg, 'temporaries': MapV(), 'now': Opaque('now'), 'use_humanize': True, 'save_previous_result': False, 'previous_result': none(ex)}
-        ctxv = Struct('Context', [cvals[f] for f in cf])
+        ctxv = make_struct(ex, 'Context', cvals)
         n = number(rational(v), dim({'whatever': (True, 1)}))
         return [ref(n), ref(ctxv)], {'v': v, 'name': name, 'power': power, 'table': {n: Fraction(val) for n, val in table}}
 
@@ -277,8 +277,8 @@ class BaseConversionUnit(Harness):
         rvals['prefixes'] = Arr([Tup([n, rational(Fraction(val))]) for n, val in table])
         rvals['datepatterns'] = Arr([])
         cf = ex.prog.src.structs['Context']
-        cvals = {'registry': Struct('Registry', [rvals[f] for f in rf]), 'temporaries': MapV(), 'previous_result': none(ex)}
-        ctxv = Struct('Context', [cvals.get(f, Opaque(f)) for f in cf])
+        cvals = {'registry': make_struct(ex, 'Registry', {'prefixes': rvals['prefixes']}), 'temporaries': MapV(), 'previous_result': none(ex)}
+        ctxv = make_struct(ex, 'Context', cvals)
         q = variant(ex, 'Query', 'Convert', [expr_const(ex, rational(Fraction(1))), variant(ex, 'Conversion', 'None'), some(ex, 16),
                                              variant(ex, 'Digits', 'Default')])
         return [ref(ctxv), ref(q)], {'v': v, 'name': name, 'table': {n: Fraction(val) for n, val in table}}
